@@ -4,6 +4,7 @@ import (
 	"fmt"
 	"go/ast"
 	"go/constant"
+	"go/token"
 	"strings"
 
 	"czcheck/an"
@@ -328,30 +329,65 @@ func runC19(c *an.Ctx) {
 
 	// ---- R6 audit parts
 	if ap := c.Fn("R6", "types.ApplyAuditLogParts"); ap != nil {
-		errIdx := an.ErrorIndex(ap.Signature)
+		// the test may sit in ApplyAuditLogParts or in a private validation helper it calls and whose error it
+		// returns: in either function, a block reached from both p == 'A' and p == 'Z' only leads to error returns
 		okAZ := false
-		for _, b := range ap.Blocks {
-			// an error-only branch reached from both p == 'A' and p == 'Z'
-			conds := map[string]bool{}
-			for _, p := range b.Preds {
-				ifi, ok := p.Instrs[len(p.Instrs)-1].(*ssa.If)
-				if !ok {
-					continue
+		fns := []*ssa.Function{ap}
+		an.Instrs(ap, func(in ssa.Instruction) {
+			if cc := an.CallOf(in); cc != nil {
+				if h := cc.StaticCallee(); h != nil && h != ap && relPkg(h) == "types" && len(h.Blocks) > 0 && !token.IsExported(h.Name()) && an.ErrorIndex(h.Signature) >= 0 {
+					fns = append(fns, h)
 				}
-				for _, a := range an.CondAtoms(ifi.Cond, p.Succs[0] == b) {
-					if a.Op == "==" && (a.R == "65" || a.R == "90") {
-						conds[a.R] = true
+			}
+		})
+		for _, f := range fns {
+			errIdx := an.ErrorIndex(f.Signature)
+			for _, b := range f.Blocks {
+				conds := map[string]bool{}
+				for _, p := range b.Preds {
+					ifi, ok := p.Instrs[len(p.Instrs)-1].(*ssa.If)
+					if !ok {
+						continue
+					}
+					for _, a := range an.CondAtoms(ifi.Cond, p.Succs[0] == b) {
+						if a.Op == "==" && (a.R == "65" || a.R == "90") {
+							conds[a.R] = true
+						}
+					}
+				}
+				if conds["65"] && conds["90"] {
+					w := an.FindPath(an.PathQuery{Fn: f, StartBlock: b, Target: func(in ssa.Instruction) bool {
+						r, ok := in.(*ssa.Return)
+						return ok && an.ReturnMayBeNilError(r, errIdx)
+					}})
+					if w == nil {
+						okAZ = true
 					}
 				}
 			}
-			if conds["65"] && conds["90"] {
-				w := an.FindPath(an.PathQuery{Fn: ap, StartBlock: b, Target: func(in ssa.Instruction) bool {
-					r, ok := in.(*ssa.Return)
-					return ok && an.ReturnMayBeNilError(r, errIdx)
-				}})
-				if w == nil {
-					okAZ = true
-				}
+		}
+		if okAZ && len(fns) > 1 {
+			// the helper's error must stop ApplyAuditLogParts: no success return of ap on the err != nil side of a helper call
+			for _, h := range fns[1:] {
+				an.Instrs(ap, func(in ssa.Instruction) {
+					call, ok := in.(*ssa.Call)
+					if !ok || call.Call.StaticCallee() != h {
+						return
+					}
+					var errV ssa.Value = call
+					if call.Call.Signature().Results().Len() > 1 {
+						errV = nil
+						ei := an.ErrorIndex(call.Call.Signature())
+						for _, r := range *call.Referrers() {
+							if ex, ok := r.(*ssa.Extract); ok && ex.Index == ei {
+								errV = ex
+							}
+						}
+					}
+					if errV == nil || !errBranchLeaves(ap, errV) {
+						okAZ = false
+					}
+				})
 			}
 		}
 		c.Check(okAZ, "R6", "ApplyAuditLogParts rejects modifications of A and Z", ap.Pos(), "error-only branch for 'A' and 'Z'", "the mandatory parts A and Z can be added or removed by ctl:auditLogParts")
